@@ -60,8 +60,8 @@ structure Case where
 def auxV (c : Case) (i : Nat) : FVal Float := fvS (c.aux.getD i "7fc00000")
 
 /-- the primitives as observed in this case -/
-def boostOf (c : Case) : BoostOps Float :=
-  let R : Bnd Float := ⟨c.R.lo, c.R.hi⟩
+def boostOf (c : Case) (nanPrim : Bool := false) : BoostOps Float :=
+  let R : Bnd Float := if nanPrim then ⟨FVal.nan, FVal.nan⟩ else ⟨c.R.lo, c.R.hi⟩
   let r1 : Bnd Float → Bnd Float := fun _ => R
   let r2 : Bnd Float → Bnd Float → Bnd Float := fun _ _ => R
   { add := r2, mul := r2,
@@ -141,15 +141,20 @@ def run (_args : List String) (lines : Array String) : Array String := Id.run do
     match parseCase (words l) with
     | none => skip := skip + 1
     | some (kind, c) =>
-      let Bo := boostOf c
-      let M := iop Bo c.op c.A c.B
+      let M0 := iop (boostOf c) c.op c.A c.B
+      -- since /repo 0be5df1 the constructor REPLACES NaN-bounded Boost results by [-inf,+inf] flagged, so
+      -- the primitive's own bounds are not observable in such a result: if libfive reports exactly
+      -- [-inf,+inf] flagged where the authored flag alone is false, the primitive is taken to have
+      -- returned NaN bounds (the only way the constructor produces that result)
+      let replaced := c.R.mn && sameV c.R.lo FVal.ninf && sameV c.R.hi FVal.pinf && !M0.mn
+      let M := if replaced then iop (boostOf c true) c.op c.A c.B else M0
       -- `Interval::state()` of the real result against the model's classification
       let ws := words l
       let stReal := (ws.dropWhile (· != "st")).getD 1 "?"
       let stModel := match istate c.R with
         | IState.empty => "E" | IState.filled => "F" | IState.ambiguous => "A"
       let good := sameV M.lo c.R.lo && sameV M.hi c.R.hi && M.mn == c.R.mn && stReal == stModel
-      let key := s!"{c.op.pname}:{decision c}"
+      let key := s!"{c.op.pname}:{decision c}{if replaced then "+nan-bounds-replaced" else ""}"
       match stats.findIdx? (·.1 == key) with
       | some i =>
         let (k, n, f) := stats[i]!
